@@ -337,6 +337,10 @@ def r5_status_conv(c, facts, rule='C04.R5'):
 
 
 def run(c, facts):
+    import c10 as _c10
+    R11 = c.rule('C04.R11', 'JOIN-AGREE / LOCATORS: loader and resolver derive the same locator for an import and agree with the file system on whether it exists; otherwise a text with an import is answered with a panic ("unknown module", the playground assert) instead of a diagnostic (shared with C10.R5, C10.R7)')
+    c.shared(R11, _c10.r5_join_agree, 'C10.R5', facts)
+    c.shared(R11, _c10.r7_locators, 'C10.R7', facts)
     c.run(r4_memo_total, facts)
     c.run(r5_status_conv, facts)
     c.run(r1_text_panic, facts)
